@@ -72,6 +72,7 @@ func (u *decodeUnit) cycle(cycle int, app risc.Application, ctx *risc.Context) {
 			u.log = fmt.Sprintf("%v at %d", runner.InstructionType(), pc/4)
 			jump = true
 		}
+		ctx.VerifEvent(risc.VerifKindDecode, ctx.SequenceID(pc), pc, 0)
 		u.outBus.Add(risc.InstructionRunnerPc{
 			Runner:     runner,
 			Pc:         pc,
